@@ -213,6 +213,7 @@ const (
 	vfFkBlock  = "fkblock"
 	vfDead     = "dead" // transaction aborted / ended
 	vfNotFound = "notfound"
+	vfAbort    = "abort" // refused inside a cascade: foreign key error and the transaction is aborted
 )
 
 func allEmpty(row vfRow, sc *vfSchema, table string, cols []string) bool {
@@ -285,6 +286,26 @@ func (m *vfModel) fkMissing(table string, row vfRow) bool {
 	return false
 }
 
+// fkMissingIx: like fkMissing for one foreign key index
+func (m *vfModel) fkMissingIx(table string, ix vfIdxDef, row vfRow) bool {
+	if ix.fkTable == "" || allEmpty(row, m.sc, table, ix.cols) {
+		return false
+	}
+	for _, tr := range m.tabs[ix.fkTable] {
+		match := true
+		for j, c := range ix.cols {
+			if row[m.sc.colIdx(table, c)] != tr[m.sc.colIdx(ix.fkTable, ix.fkCols[j])] {
+				match = false
+				break
+			}
+		}
+		if match {
+			return false
+		}
+	}
+	return true
+}
+
 // referrers returns, for a target row, the referencing (table, index def, primary keys)
 type vfRef struct {
 	table string
@@ -342,8 +363,20 @@ func (m *vfModel) fkColsChanged(table string, ix vfIdxDef, oldr, newr vfRow) boo
 	return !sameCols(oldr, newr, m.sc, table, ix.cols)
 }
 
-// update applies an update of the row stored under pk
+// update applies an update of the row stored under pk.
+// Outcomes: "" ok; dup / fkblock: refused, nothing changed, transaction still usable;
+// abort: a cascaded (nested) change was refused, the operation fails with a foreign key
+// error AND the whole transaction is aborted (its partial work must never be committed).
 func (m *vfModel) update(table string, pk string, newr vfRow) []string {
+	work := m.clone()
+	res := work.updateRec(table, pk, newr, 0)
+	if len(res) == 1 && res[0] == vfOK {
+		m.tabs = work.tabs
+	}
+	return res
+}
+
+func (m *vfModel) updateRec(table string, pk string, newr vfRow, depth int) []string {
 	oldr := m.tabs[table][pk]
 	if oldr == nil {
 		return []string{vfNotFound}
@@ -355,21 +388,19 @@ func (m *vfModel) update(table string, pk string, newr vfRow) []string {
 	if m.dupOf(table, newr, pk) {
 		fails = append(fails, vfDup)
 	}
-	// source side: a changed foreign key value needs a target
+	// source side: a changed foreign key value needs a target (not re-checked for cascaded rows)
 	def := m.sc.defs[table]
-	for _, ix := range def.idxs {
-		if ix.fkTable != "" && m.fkColsChanged(table, ix, oldr, newr) {
-			probe := newr
-			if m.fkMissing(table, probe) {
-				fails = append(fails, vfFkBlock)
-				break
+	if depth == 0 {
+		for _, ix := range def.idxs {
+			if ix.fkTable != "" && m.fkColsChanged(table, ix, oldr, newr) {
+				if m.fkMissingIx(table, ix, newr) {
+					fails = append(fails, vfFkBlock)
+					break
+				}
 			}
 		}
 	}
 	// target side: changing referenced columns is blocked unless the foreign key cascades updates
-	type casc struct {
-		ref vfRef
-	}
 	var cascades []vfRef
 	for _, ref := range m.referrers(table, oldr) {
 		changed := false
@@ -389,27 +420,47 @@ func (m *vfModel) update(table string, pk string, newr vfRow) []string {
 		}
 	}
 	if len(fails) > 0 {
+		if depth > 0 {
+			return []string{vfAbort}
+		}
 		return fails
 	}
 	delete(m.tabs[table], pk)
 	m.tabs[table][m.sc.key(table, 0, newr)] = newr.clone()
 	for _, ref := range cascades {
 		for _, spk := range ref.pks {
-			sr := m.tabs[ref.table][spk].clone()
+			cur := m.tabs[ref.table][spk]
+			if cur == nil {
+				continue
+			}
+			sr := cur.clone()
 			for j, c := range ref.ix.cols {
 				sr[m.sc.colIdx(ref.table, c)] = newr[m.sc.colIdx(table, ref.ix.fkCols[j])]
 			}
-			delete(m.tabs[ref.table], spk)
-			m.tabs[ref.table][m.sc.key(ref.table, 0, sr)] = sr
+			if res := m.updateRec(ref.table, spk, sr, depth+1); res[0] != vfOK {
+				return []string{vfAbort}
+			}
 		}
 	}
 	return []string{vfOK}
 }
 
-// delete applies a delete of the row stored under pk
+// delete applies a delete of the row stored under pk (outcomes as for update)
 func (m *vfModel) delete(table string, pk string) []string {
+	work := m.clone()
+	res := work.deleteRec(table, pk, 0)
+	if len(res) == 1 && res[0] == vfOK {
+		m.tabs = work.tabs
+	}
+	return res
+}
+
+func (m *vfModel) deleteRec(table string, pk string, depth int) []string {
 	oldr := m.tabs[table][pk]
 	if oldr == nil {
+		if depth > 0 {
+			return []string{vfOK}
+		}
 		return []string{vfNotFound}
 	}
 	var cascades []vfRef
@@ -418,6 +469,9 @@ func (m *vfModel) delete(table string, pk string) []string {
 			continue
 		}
 		if ref.ix.fkMode&schema.CascadeDeletes == 0 {
+			if depth > 0 {
+				return []string{vfAbort}
+			}
 			return []string{vfFkBlock}
 		}
 		cascades = append(cascades, ref)
@@ -425,7 +479,9 @@ func (m *vfModel) delete(table string, pk string) []string {
 	delete(m.tabs[table], pk)
 	for _, ref := range cascades {
 		for _, spk := range ref.pks {
-			delete(m.tabs[ref.table], spk)
+			if res := m.deleteRec(ref.table, spk, depth+1); res[0] != vfOK {
+				return []string{vfAbort}
+			}
 		}
 	}
 	return []string{vfOK}
